@@ -8,7 +8,7 @@ simulation engine sizes such masks with the number of LTS states, an upper bound
 from vfacts import strip, walk, method_name, root_path, is_node
 
 RULE = 'STALESIZE'
-FLOOR = 3
+FLOOR = 2
 
 
 def grows(unit, fns):
